@@ -17,6 +17,11 @@
 // (append gives the prefix room for two more elements, appendf room for the whole set: the in-place
 // path of Append; both are the model's Append.)
 //
+// Round 4 (inst.go, round4.go): more element types (kinds Sp Sa Sf Sz), a 4th field on keys / values /
+// range / new / add / rm / hasall / hasany / isect naming the instantiation of the other type parameter
+// or the form of the argument list, keysv / rangev (another set variable is the argument map) and
+// appendc (Append onto a given spare capacity); see the head of inst.go.
+//
 // Scale kinds.  The elements in a trace line are always int CODES; the Go element type the code runs
 // on is chosen by the second letter of the kind and the code is mapped to a value of that type by an
 // injective function that sends code 0 to the zero value of the type:
@@ -55,6 +60,7 @@ package main
 import (
 	"fmt"
 	"iter"
+	"maps"
 	"math"
 	"reflect"
 	"slices"
@@ -77,11 +83,24 @@ type world[T comparable] struct {
 	enc   func(int) T
 	dec   map[T]int
 	scale bool
+	univ1 bool // kind Sz: the element type has ONE value (struct{}); the only code is 0
+}
+
+// ok: may the code occur in a case of this world?
+func (w *world[T]) ok(c int) bool { return !w.univ1 || c == 0 }
+
+func (w *world[T]) okAll(l []int) bool {
+	for _, c := range l {
+		if !w.ok(c) {
+			return false
+		}
+	}
+	return true
 }
 
 func (w *world[T]) e(c int) T {
 	v := w.enc(c)
-	if w.dec != nil {
+	if w.dec != nil && !w.univ1 {
 		if old, ok := w.dec[v]; ok && old != c {
 			panic(fmt.Sprintf("harness: codes %d and %d map to the same value", old, c))
 		}
@@ -153,6 +172,9 @@ func encExtreme(c int) int {
 func encString(c int) string {
 	if c == 0 {
 		return ""
+	}
+	if c >= 1 && c <= len(collisions) {
+		return collisions[c-1] // pairs with equal 32-bit hashes (FNV-1a, Java), see inst.go
 	}
 	s := strconv.Itoa(c)
 	switch ((c % 5) + 5) % 5 {
@@ -233,7 +255,7 @@ func dump[T comparable](w *world[T], vars []mapset.Set[T], idx int) string {
 	m := vars[idx]
 	if m == nil {
 		// still ask the nil set everything the API offers
-		if m.Len() != 0 || !m.IsEmpty() || m.Has(w.e(0)) {
+		if m.Len() != 0 || !m.IsEmpty() || m.Has(w.e(0)) || len(m.Slice()) != 0 {
 			return "n!"
 		}
 		return "n"
@@ -245,7 +267,7 @@ func dump[T comparable](w *world[T], vars []mapset.Set[T], idx int) string {
 	sort.Ints(keys)
 	var mask strings.Builder
 	for x := 0; x < maskN; x++ {
-		mask.WriteString(tr.B(m.Has(w.e(x))))
+		mask.WriteString(tr.B(w.ok(x) && m.Has(w.e(x))))
 	}
 	e := "F"
 	if m.IsEmpty() {
@@ -265,6 +287,9 @@ func dump[T comparable](w *world[T], vars []mapset.Set[T], idx int) string {
 func poisoned[T comparable](w *world[T], a, b mapset.Set[T]) bool {
 	if a == nil || b == nil {
 		return false
+	}
+	if w.univ1 { // no second value to insert: the address is all there is
+		return ptr(a) == ptr(b)
 	}
 	s := w.e(sentinel)
 	res := false
@@ -338,6 +363,15 @@ func run(in string) (string, string) {
 		return runT(&world[string]{enc: encString, dec: map[string]int{"": 0}, scale: true}, f, in)
 	case "St":
 		return runT(&world[rec]{enc: encRec, dec: map[rec]int{{}: 0}, scale: true}, f, in)
+	case "Sp":
+		t := ptrTable{}
+		return runT(&world[*int]{enc: t.get, dec: map[*int]int{nil: 0}, scale: true}, f, in)
+	case "Sa":
+		return runT(&world[any]{enc: encAny(ptrTable{}), dec: map[any]int{nil: 0}, scale: true}, f, in)
+	case "Sf":
+		return runT(&world[float64]{enc: encFloat, dec: map[float64]int{0: 0}, scale: true}, f, in)
+	case "Sz":
+		return runT(&world[struct{}]{enc: func(int) struct{} { return struct{}{} }, dec: map[struct{}]int{{}: 0}, scale: true, univ1: true}, f, in)
 	}
 	return in, "?"
 }
@@ -393,6 +427,11 @@ func runOp[T comparable](w *world[T], c *mem[T], vars []mapset.Set[T], op string
 	}
 	pre := slices.Clone(vars)
 	poison := w.e(sentinel)
+	// plist: a list of codes of this world
+	plist := func(s string) ([]int, bool) {
+		l, ok := parseList(s)
+		return l, ok && w.okAll(l)
+	}
 	// returned: the result string of a call that returned the set r (vars[i] already updated)
 	returned := func(r mapset.Set[T]) string {
 		id, disagree := c.ident(w, pre, r)
@@ -406,18 +445,19 @@ func runOp[T comparable](w *world[T], c *mem[T], vars []mapset.Set[T], op string
 	pan := tr.Catch(func() {
 		switch p[0] {
 		case "new":
-			l, ok := parseList(arg(2))
-			if !ok {
+			l, ok := plist(arg(2))
+			a, ok2 := mkArgs(w, l, arg(3))
+			if !ok || !ok2 {
 				res = "?"
 				return
 			}
-			items := w.es(l)
-			vars[i] = mapset.New(items...)
-			res = returned(vars[i])
-			// the argument slice is not retained: poison it
-			for x := range items {
-				items[x] = poison
+			if a.none {
+				vars[i] = mapset.New[T]()
+			} else {
+				vars[i] = mapset.New(a.items...)
 			}
+			// the argument slice is not retained: it is compared and poisoned afterwards
+			res = returned(vars[i]) + a.after(w)
 		case "newsize":
 			n, err := strconv.ParseInt(arg(2), 10, 64)
 			if err != nil || (n > 1<<16 && n < 1<<62) { // mid-size hints really allocate
@@ -451,89 +491,126 @@ func runOp[T comparable](w *world[T], c *mem[T], vars []mapset.Set[T], op string
 				}
 				args = append(args, vars[j])
 			}
-			vars[i] = mapset.Intersect(args...)
-			res = returned(vars[i])
+			switch form := arg(3); {
+			case form == ".":
+				vars[i] = mapset.Intersect(args...)
+			case form == "n" && len(args) == 0:
+				vars[i] = mapset.Intersect([]mapset.Set[T](nil)...)
+			case form == "e" && len(args) == 0:
+				vars[i] = mapset.Intersect([]mapset.Set[T]{}...)
+			case form == "0" && len(args) == 0:
+				vars[i] = mapset.Intersect[T]()
+			case form == "w":
+				// a window into a larger array of operands: the cells around it hold an empty set
+				// that must not be looked at (the intersection with it is empty)
+				decoy := mapset.Set[T]{}
+				big := make([]mapset.Set[T], len(args)+2*windowPad)
+				for x := range big {
+					big[x] = decoy
+				}
+				copy(big[windowPad:], args)
+				win := big[windowPad : windowPad+len(args)]
+				vars[i] = mapset.Intersect(win...)
+				for x := range win {
+					if ptr(win[x]) != ptr(args[x]) {
+						res = "!"
+					}
+				}
+				if len(decoy) != 0 {
+					res = "!"
+				}
+			default:
+				res = "?"
+				return
+			}
+			res = returned(vars[i]) + res
 		case "range":
-			var it iter.Seq[T]
-			var items []T
-			if arg(2) != "nil" {
-				l, ok := parseList(arg(2))
-				if !ok {
-					res = "?"
-					return
-				}
-				items = w.es(l)
-				it = slices.Values(items)
+			if arg(2) == "nil" {
+				var it iter.Seq[T]
+				r := mapset.Range(it) // panics for the nil function: the variable keeps its value
+				vars[i] = r
+				res = returned(vars[i])
+				return
 			}
-			r := mapset.Range(it) // panics for the nil function: the variable keeps its value
-			vars[i] = r
-			res = returned(vars[i])
-			for x := range items { // what the iterator read from is the caller's
-				items[x] = poison
-			}
-		case "keys":
-			var m map[T]string
-			var l []int
-			if arg(2) != "nil" {
-				var ok bool
-				l, ok = parseList(arg(2))
-				if !ok {
-					res = "?"
-					return
-				}
-				m = map[T]string{}
-				for _, x := range l {
-					m[w.e(x)] = "v"
-				}
-			}
-			want := len(m)
-			vars[i] = mapset.Keys(m)
-			res = returned(vars[i])
-			if len(m) != want || (arg(2) == "nil") != (m == nil) { // the argument map is left alone
-				res += "!"
-			}
-			if m != nil { // ... and is the caller's afterwards: the dump follows
-				m[poison] = "p"
-				for _, x := range l {
-					delete(m, w.e(x))
-					break
-				}
-			}
-		case "values":
-			var m map[int]T
-			var l []int
-			if arg(2) != "nil" {
-				var ok bool
-				l, ok = parseList(arg(2))
-				if !ok {
-					res = "?"
-					return
-				}
-				m = map[int]T{}
-				for n, x := range l {
-					m[1000+n] = w.e(x)
-				}
-			}
-			vars[i] = mapset.Values(m)
-			res = returned(vars[i])
-			if len(m) != len(l) || (arg(2) == "nil") != (m == nil) {
-				res += "!"
-			}
-			for n := range m {
-				m[n] = poison
-			}
-		case "add":
-			l, ok := parseList(arg(2))
+			l, ok := plist(arg(2))
 			if !ok {
 				res = "?"
 				return
 			}
-			items := w.es(l)
-			r := vars[i].Add(items...)
-			res = returned(r)
-			for x := range items {
-				items[x] = poison
+			r, after, ok := doRange(w, l, arg(3))
+			if !ok {
+				res = "?"
+				return
 			}
+			vars[i] = r
+			res = returned(vars[i]) + after() // what the iterator read from is the caller's: poisoned
+		case "rangev", "keysv":
+			j, ok := idx(arg(2))
+			if !ok {
+				res = "?"
+				return
+			}
+			src := vars[j]
+			want := len(src)
+			var r mapset.Set[T]
+			if p[0] == "keysv" {
+				r = mapset.Keys(src)
+			} else {
+				r = mapset.Range(maps.Keys(src))
+			}
+			vars[i] = r
+			res = returned(vars[i])
+			if len(src) != want { // (whether it is still the same map shows in the dumps)
+				res += "!"
+			}
+		case "keys":
+			var l []int
+			if arg(2) != "nil" {
+				var ok bool
+				l, ok = plist(arg(2))
+				if !ok {
+					res = "?"
+					return
+				}
+			}
+			r, after, ok := doKeys(w, l, arg(2) == "nil", arg(3))
+			if !ok {
+				res = "?"
+				return
+			}
+			vars[i] = r
+			res = returned(vars[i]) + after() // the argument map is left alone, and is the caller's afterwards
+		case "values":
+			var l []int
+			if arg(2) != "nil" {
+				var ok bool
+				l, ok = plist(arg(2))
+				if !ok {
+					res = "?"
+					return
+				}
+			}
+			r, after, ok := doValues(w, l, arg(2) == "nil", arg(3), ptrTable{})
+			if !ok {
+				res = "?"
+				return
+			}
+			vars[i] = r
+			res = returned(vars[i]) + after()
+		case "add":
+			l, ok := plist(arg(2))
+			a, ok2 := mkArgs(w, l, arg(3))
+			if !ok || !ok2 {
+				res = "?"
+				return
+			}
+			var r mapset.Set[T]
+			if a.none {
+				r = vars[i].Add()
+			} else {
+				r = vars[i].Add(a.items...)
+			}
+			res = returned(r) + a.after(w)
 		case "addall":
 			j, ok := idx(arg(2))
 			if !ok {
@@ -543,17 +620,19 @@ func runOp[T comparable](w *world[T], c *mem[T], vars []mapset.Set[T], op string
 			r := vars[i].AddAll(vars[j])
 			res = returned(r)
 		case "rm":
-			l, ok := parseList(arg(2))
-			if !ok {
+			l, ok := plist(arg(2))
+			a, ok2 := mkArgs(w, l, arg(3))
+			if !ok || !ok2 {
 				res = "?"
 				return
 			}
-			items := w.es(l)
-			r := vars[i].Remove(items...)
-			res = returned(r)
-			for x := range items {
-				items[x] = poison
+			var r mapset.Set[T]
+			if a.none {
+				r = vars[i].Remove()
+			} else {
+				r = vars[i].Remove(a.items...)
 			}
+			res = returned(r) + a.after(w)
 		case "rmall":
 			j, ok := idx(arg(2))
 			if !ok {
@@ -571,13 +650,13 @@ func runOp[T comparable](w *world[T], c *mem[T], vars []mapset.Set[T], op string
 			nop = "pop:" + p[1] + ":" + strconv.Itoa(x)
 		case "has":
 			x, err := strconv.Atoi(arg(2))
-			if err != nil {
+			if err != nil || !w.ok(x) {
 				res = "?"
 				return
 			}
 			res = "b" + tr.B(vars[i].Has(w.e(x)))
 		case "hasd":
-			l, ok := parseList(arg(2))
+			l, ok := plist(arg(2))
 			if !ok {
 				res = "?"
 				return
@@ -589,20 +668,25 @@ func runOp[T comparable](w *world[T], c *mem[T], vars []mapset.Set[T], op string
 				}
 			}
 			res = "h" + strconv.Itoa(len(yes)) + ":" + digest(yes)
-		case "hasall":
-			l, ok := parseList(arg(2))
-			if !ok {
+		case "hasall", "hasany":
+			l, ok := plist(arg(2))
+			a, ok2 := mkArgs(w, l, arg(3))
+			if !ok || !ok2 {
 				res = "?"
 				return
 			}
-			res = "b" + tr.B(vars[i].HasAll(w.es(l)...))
-		case "hasany":
-			l, ok := parseList(arg(2))
-			if !ok {
-				res = "?"
-				return
+			var b bool
+			switch {
+			case p[0] == "hasall" && a.none:
+				b = vars[i].HasAll()
+			case p[0] == "hasall":
+				b = vars[i].HasAll(a.items...)
+			case a.none:
+				b = vars[i].HasAny()
+			default:
+				b = vars[i].HasAny(a.items...)
 			}
-			res = "b" + tr.B(vars[i].HasAny(w.es(l)...))
+			res = "b" + tr.B(b) + a.after(w)
 		case "len":
 			res = "i" + strconv.Itoa(vars[i].Len())
 		case "empty":
@@ -642,7 +726,7 @@ func runOp[T comparable](w *world[T], c *mem[T], vars []mapset.Set[T], op string
 			var l []int
 			if arg(2) != "n" {
 				var ok bool
-				l, ok = parseList(arg(2))
+				l, ok = plist(arg(2))
 				if !ok {
 					res = "?"
 					return
@@ -673,6 +757,30 @@ func runOp[T comparable](w *world[T], c *mem[T], vars []mapset.Set[T], op string
 			}
 			for x := range vs {
 				vs[x] = poison
+			}
+		case "appendc":
+			l, ok := plist(arg(2))
+			room, err := strconv.Atoi(arg(4))
+			if !ok || err != nil || room < 0 || room > 1<<20 {
+				res = "?"
+				return
+			}
+			n := len(l)
+			r, inPlace, clobbered := appendCap(w, vars[i], l, room)
+			if len(r) < n {
+				res = "l" + tr.B(r != nil) + ":short:" + tr.Ints(w.ds(r))
+				return
+			}
+			rest := w.ds(r[n:])
+			if w.scale && len(rest) > digestOver {
+				nop = "appendc:" + p[1] + ":" + arg(2) + ":#:" + arg(4)
+			} else {
+				nop = "appendc:" + p[1] + ":" + arg(2) + ":" + tr.Ints(rest) + ":" + arg(4)
+			}
+			sort.Ints(rest)
+			res = "l" + tr.B(r != nil) + ":" + tr.Ints(w.ds(r[:n])) + ":" + w.ints(rest) + ":" + tr.B(inPlace) + tr.B(clobbered)
+			for x := range r {
+				r[x] = poison
 			}
 		default:
 			res = "?"
@@ -781,6 +889,8 @@ func (g *gen) exhaustive() {
 		pre := initOp(0, a, U) + ";"
 		for _, op := range []string{"clone:1:0;add:1:5;rm:0:0;pop:1:?", "clone:0:0", "pop:0:?;pop:0:?;pop:0:?;pop:0:?;pop:0:?", "clear:0;add:0:1",
 			"slice:0:?", "append:0:n:?", "append:0:.:?", "append:0:7,7:?", "len:0;empty:0;has:0:0;has:0:3;has:0:4",
+			"appendc:0:.:?:0;appendc:0:.:?:1;appendc:0:.:?:2;appendc:0:.:?:3;appendc:0:.:?:4;appendc:0:.:?:5", "appendc:0:7:?:0;appendc:0:7:?:1;appendc:0:7:?:2;appendc:0:7:?:3;appendc:0:7:?:4;appendc:0:7:?:5",
+			"appendc:0:7,7:?:0;appendc:0:7,7:?:1;appendc:0:7,7:?:2;appendc:0:7,7:?:3;appendc:0:7,7:?:4;appendc:0:7,7:?:5",
 			"addall:0:0", "rmall:0:0", "meets:0:0", "sub:0:0", "eq:0:0", "isect:1:0", "isect:1:0,0", "isect:0:0,0,0", "isect:1:.",
 			"newsize:0:0", "newsize:1:3;addall:1:0", "nil:0;pop:0:?;rm:0:1;clear:0;slice:0:?"} {
 			g.emit("X 2 "+pre+op, true, append(tags, "exhaustive-unary")...)
@@ -792,7 +902,10 @@ func (g *gen) exhaustive() {
 		}
 		// degenerate arguments: no items at all, the nil iterator, nil maps, negative and huge size hints
 		for _, op := range []string{"add:0:.;rm:0:.;hasall:0:.;hasany:0:.", "range:1:nil;add:1:5", "range:0:nil", "keys:1:nil;add:1:5", "values:1:nil;add:1:5", "keys:0:nil", "values:0:nil",
-			"newsize:1:-1;add:1:1;addall:1:0", "newsize:0:-9223372036854775808", "newsize:1:9223372036854775807;add:1:2", "newsize:0:-1099511627776", "isect:1:.;add:1:5", "new:0:.", "append:0:.:?"} {
+			"newsize:1:-1;add:1:1;addall:1:0", "newsize:0:-9223372036854775808", "newsize:1:9223372036854775807;add:1:2", "newsize:0:-1099511627776", "isect:1:.;add:1:5", "new:0:.", "append:0:.:?",
+			// round 4: the argument map of Keys has struct{} values / is itself a set (nil, empty, a variable); no argument at all
+			"keys:1:nil:e;add:1:5", "keys:1:nil:S;add:1:5", "keys:1:.:e;add:1:5", "keys:0:nil:e", "keysv:1:0;add:1:5;rm:0:0", "rangev:1:0;add:1:5;rm:0:0", "keysv:0:0;add:0:5", "values:1:nil:t;add:1:5",
+			"new:1:.:0;add:1:5", "new:1:.:n;add:1:5", "isect:1:.:0;add:1:5", "isect:1:.:e;add:1:5", "hasall:0:.:0;hasall:0:.:n;hasany:0:.:0;add:0:.:0;rm:0:.:n", "isect:1:0,0:w;add:1:5"} {
 			g.emit("X 2 "+pre+op, true, append(tags, "degenerate-argument")...)
 		}
 		allLists(U+1, g.o.Scale(2, 3), func(l []int) {
@@ -907,7 +1020,16 @@ func (g *gen) history() {
 			if g.r.Chance(1, 6) {
 				l = "nil"
 			}
-			ops = append(ops, fmt.Sprintf("%s:%d:%s", tr.Pick(g.r, []string{"range", "keys", "values"}), i, l))
+			switch op := tr.Pick(g.r, []string{"range", "keys", "values", "keysv", "rangev"}); op {
+			case "keysv", "rangev": // another set is the argument map
+				ops = append(ops, fmt.Sprintf("%s:%d:%d", op, i, j))
+			case "keys":
+				ops = append(ops, fmt.Sprintf("keys:%d:%s:%s", i, l, tr.Pick(g.r, []string{"s", "e", "S", "i", "p", "z", "a"})))
+			case "values":
+				ops = append(ops, fmt.Sprintf("values:%d:%s:%s", i, l, tr.Pick(g.r, []string{"i", "s", "t", "a"})))
+			default:
+				ops = append(ops, fmt.Sprintf("range:%d:%s", i, l))
+			}
 		case c < 78:
 			ops = append(ops, fmt.Sprintf("%s:%d:%s", tr.Pick(g.r, []string{"hasall", "hasany"}), i, g.randList(u, 3)))
 		case c < 90:
@@ -915,7 +1037,11 @@ func (g *gen) history() {
 		case c < 94:
 			ops = append(ops, fmt.Sprintf("slice:%d:?", i))
 		case c < 97:
-			ops = append(ops, fmt.Sprintf("append:%d:%s:?", i, tr.Pick(g.r, []string{"n", ".", "8", "8,9,8"})))
+			if g.r.Bool() { // any length and spare capacity of the destination
+				ops = append(ops, fmt.Sprintf("appendc:%d:%s:?:%d", i, sevens(g.r.Intn(4)), g.r.Intn(u+2)))
+			} else {
+				ops = append(ops, fmt.Sprintf("append:%d:%s:?", i, tr.Pick(g.r, []string{"n", ".", "8", "8,9,8"})))
+			}
 		case c < 98:
 			// drain to empty
 			for x := 0; x < u+1; x++ {
@@ -936,7 +1062,7 @@ func (g *gen) history() {
 	g.emit(fmt.Sprintf("H %d %s", k, strings.Join(ops, ";")), true, tags...)
 }
 
-const rule = "C18: (identity of every returned map by address, relative to the variables before the call, and which variables share a map, are part of every output) every binary operation (AddAll, RemoveAll, Intersects, IsSubset, Equals, Intersect into a third/the first/the second variable) on every ordered pair of operands from {nil} + the 16 subsets of {0..3}, each also followed by mutations of result and argument (aliasing poison); every unary operation and every self-application (s op s, also followed by reads and writes) on the 17 operands; degenerate arguments (no items, the nil iterator function, nil maps, negative and huge size hints); big sets of 9-130 (thorough: -300) elements with self-application, draining by Pop and overlapping operands; HasAll/HasAny/Add/Remove with every item list to length 2 (quick) / 3 (thorough) over {0..4}; New/Range/Keys/Values on every list to length 3; Intersect on every triple over {nil} + subsets of {0,1,2}; random histories of 5-40 operations over 2-4 variables and universes of 3-7 elements, with variables reset to nil, cleared and drained by Pop.  After every operation every variable is dumped (nil-ness, Len, IsEmpty, Has over 0..7, sorted keys).  The element Pop returned and the order Slice/Append produced are recorded as oracle inputs.  Round 3, scale stream (kinds Si Sx Ss St = int / extreme int / string / struct elements, codes in the trace, code 0 = the zero value of the type and a member of almost every set): sets of 2^k-1, 2^k, 2^k+1 members for k = 1..12 and a few random large sizes: every observer and variadic call on the big set (no items, repeats, more arguments than members, non-members; Has asked about every element of the universe), the zero value removed / re-added / popped, every self-application, constructors from sequences with repeats (argument maps and slices poisoned afterwards), sets emptied by Remove or Clear and used again, every binary operation on (nil, empty, emptied by Remove, cleared, singleton, big) x the same with results and operands mutated afterwards, equal big operands and one-element differences, Pop until empty and beyond (to 1025 members in the quick tier, 2049 in the thorough tier), grow - drain to 1/8 by Pop or Remove - observe - regrow, random histories over runs of about 2^k items; lists of more than 64 codes in the output are digests of the SORTED codes.  Every case is non-trivial; distinct = distinct recorded inputs."
+const rule = "C18: (identity of every returned map by address, relative to the variables before the call, and which variables share a map, are part of every output) every binary operation (AddAll, RemoveAll, Intersects, IsSubset, Equals, Intersect into a third/the first/the second variable) on every ordered pair of operands from {nil} + the 16 subsets of {0..3}, each also followed by mutations of result and argument (aliasing poison); every unary operation and every self-application (s op s, also followed by reads and writes) on the 17 operands; degenerate arguments (no items, the nil iterator function, nil maps, negative and huge size hints); big sets of 9-130 (thorough: -300) elements with self-application, draining by Pop and overlapping operands; HasAll/HasAny/Add/Remove with every item list to length 2 (quick) / 3 (thorough) over {0..4}; New/Range/Keys/Values on every list to length 3; Intersect on every triple over {nil} + subsets of {0,1,2}; random histories of 5-40 operations over 2-4 variables and universes of 3-7 elements, with variables reset to nil, cleared and drained by Pop.  After every operation every variable is dumped (nil-ness, Len, IsEmpty, Has over 0..7, sorted keys).  The element Pop returned and the order Slice/Append produced are recorded as oracle inputs.  Round 3, scale stream (kinds Si Sx Ss St = int / extreme int / string / struct elements, codes in the trace, code 0 = the zero value of the type and a member of almost every set): sets of 2^k-1, 2^k, 2^k+1 members for k = 1..12 and a few random large sizes: every observer and variadic call on the big set (no items, repeats, more arguments than members, non-members; Has asked about every element of the universe), the zero value removed / re-added / popped, every self-application, constructors from sequences with repeats (argument maps and slices poisoned afterwards), sets emptied by Remove or Clear and used again, every binary operation on (nil, empty, emptied by Remove, cleared, singleton, big) x the same with results and operands mutated afterwards, equal big operands and one-element differences, Pop until empty and beyond (to 1025 members in the quick tier, 2049 in the thorough tier), grow - drain to 1/8 by Pop or Remove - observe - regrow, random histories over runs of about 2^k items; lists of more than 64 codes in the output are digests of the SORTED codes.  Round 4 (kinds Sp Sa Sf Sz added = *int / any with mixed dynamic types / float64 / struct{} elements; code 0 is the nil pointer, the nil interface, 0.0, struct{}{}): every generic entry point on every one of the eight element types with a nil, an empty non-nil and a populated argument -- Keys for nine value types of the argument map (struct{}, a mapset.Set, string, int, bool, *int, [0]int, any, func()), Values for six key types, Range for three kinds of iterator, Keys/Range of another set VARIABLE (nil, empty, emptied, cleared, populated, the destination itself), New/Add/Remove/HasAll/HasAny/Intersect with no argument at all, the nil slice, a window into a larger array; all 36 operand-shape pairs on every type; string elements with equal FNV-1a-32 / Java hashes in either operand; Append onto every (len 0..4, cap-len 0..8) for every set size 0..6, fresh and after shrinking, with the placement of the result (the destination's array iff cap-len >= Len) and the cells outside the appended range part of the output; every set size 0..600 (quick: all to 256, every fourth beyond) with argument counts and spare capacities one below, at and one above Len and operands differing in one element.  Every case is non-trivial; distinct = distinct recorded inputs."
 
 func main() {
 	o := tr.ParseFlags()
@@ -950,6 +1076,7 @@ func main() {
 		g.exhaustive()
 		g.big()
 		g.scale()
+		g.round4()
 		for i := 0; i < o.Scale(4000, 250000); i++ {
 			g.history()
 		}
